@@ -5,7 +5,7 @@ import time
 
 from common import Rule, finish
 from hirtab import ANY, C, L, T, adt_variants, callees, candidates, lit_value
-from hirutil import find, lit_str, strip, walk
+from hirutil import callee as hir_callee, find, lit_str, strip, walk
 from mirutil import Body, op_local, rvalue_reads
 
 
@@ -350,6 +350,24 @@ def run(facts, tier):
         t5.examined("numbers", True, {"strings_starting_like_a_number_are_quoted": ok})
         if not ok:
             t5.violate("numbers", "must_quote no longer quotes strings that start like a number")
+    # what a plain scalar may not look like at its ends: the reader strips trailing white space and takes `--- x` / `... x`
+    # at the start of a line for a document marker
+    mq = facts.hir_fn("jaq_fmts::write::yaml::must_quote")
+    if mq is not None:
+        helpers_ = [c_ for c_ in callees(mq["body"]) if c_.startswith("jaq_fmts::write::yaml::") and c_ != mq["def"]]
+        recog = [facts.mir_fn(h_) for h_ in helpers_ if facts.mir_fn(h_) is not None and facts.mir_fn(h_)["locals"][0]["ty"] == "bool"]
+        if not recog:
+            t5.missing_anchor("the plain-scalar recogniser called by must_quote")
+        for rj in recog:
+            accepts = [s_ for bb_ in rj["bbs"] if not bb_.get("cleanup") for s_ in bb_["st"] if s_.get("k") == "A" and s_["p"]["l"] == 0 and not s_["p"].get("pr")
+                       and s_["r"].get("k") == "Use" and (s_["r"]["o"].get("k") or {}).get("v") in (True, 1)]
+            t5.examined(("ends", rj["def"]), True, {"recogniser": rj["def"], "unconditional_accepts": len(accepts)})
+            if accepts:
+                t5.violate("trailing-blank", f"`{rj['def']}` accepts a scalar without a final test (it returns the constant `true` after scanning): a string that ends in white space is written plain and read back without it (`\"a \" | toyaml | fromyaml` gives `\"a\"`, `\"null \"` gives null)", where=accepts[0].get("sp"))
+        marks = [n for n in find(mq["body"], lambda n: n.get("k") in ("Call", "MethodCall") and ("starts_with" in (hir_callee(n) or "") or "strip_prefix" in (hir_callee(n) or "")) and any(lit_bytes(x) in (b"---", b"...") for x in find(n.get("args", []), lambda y: y.get("k") == "Lit")))]
+        t5.examined("doc-marker-prefix", True, {"document_markers_tested_as_prefix": len(marks)})
+        if len(marks) < 2:
+            t5.violate("doc-marker-prefix", "must_quote recognises the document markers `---` and `...` only as whole strings: `--- a` is written plain and read back as the start of a new document (`\"--- a\" | toyaml | fromyaml` gives `\"a\"`)", where=mq["sp"])
     rules.append(t5.finish())
 
     # ---------------- T14.6 domain errors
